@@ -56,6 +56,7 @@ Proof.
   - cbv zeta in H. unfold suspend_waitchange, fresh_id in H. simpl in H. unfold log_watch, log_proc in H.
     rewrite !add_log_ready in H. left; exact H.
   - cbv zeta in H. unfold suspend_waitstable in H. simpl in H. unfold log_proc in H. rewrite add_log_ready in H. left; exact H.
+  - cbv zeta in H. unfold suspend_waitx, fresh_id in H. simpl in H. unfold log_proc in H. rewrite add_log_ready in H. left; exact H.
 Qed.
 
 Lemma log_wake_ready : forall pid w g s, s_ready (log_wake pid w g s) = s_ready s.
@@ -300,6 +301,10 @@ Proof.
     eapply (NA s0); [| | | exact He]; [repeat split | repeat split | intros; discriminate].
   - cbv zeta in He. simpl in He.
     eapply (NA (upd_proc pid (with_script rest) s)); [| | | exact He]; [repeat split | repeat split | intros; discriminate].
+  - cbv zeta in He.
+    match type of He with In _ (s_log (suspend_waitx ?c ?p ?i ?h ?x)) => destruct (suspend_waitx_lg c p i h x) as (L & _) end.
+    rewrite L in He.
+    eapply (NA (upd_proc pid (with_script rest) s)); [| | | exact He]; [repeat split | repeat split | intros; discriminate].
 Qed.
 
 
@@ -464,7 +469,7 @@ Proof.
       - rewrite C1, C2. eapply Itk; exact Hin'.
       - destruct B as [(p & n & E)|[(p & k & g' & E)|(p & E)]]; inversion E; subst; exact I. }
     assert (Lg : forall e, In e (s_log s') -> entry_ok e) by (apply (frame_step_log_ok f s s' F Hh); exact Ilg).
-    destruct (frame_step_bk cfg f s s' F) as [Q A B W N Cq|pid q Q A B W N Cq|pid c ph Q A B W N Cq|pid m Q A B W N Cq|pid Q A B W N Cq].
+    destruct (frame_step_bk cfg f s s' F) as [Q A B W N Cq|pid q Q A B W N Cq|pid c ph Q A B W N Cq|pid m Q A B W N Cq|pid Q A B W N Cq|pid xi ph Q A B W N Cq].
     + constructor; try assumption.
       * intro i. rewrite (cnt_same i s s') by assumption. apply Ic.
       * intros i H. rewrite N. apply Ib. rewrite <- (cnt_same i s s') by assumption. exact H.
@@ -501,6 +506,13 @@ Proof.
       * intro i. rewrite (cnt_same i s s') by assumption. apply Ic.
       * intros i H. rewrite N. apply Ib. rewrite <- (cnt_same i s s') by assumption. exact H.
       * rewrite Q. exact Iev.
+      * intros k a Ha. apply (Iaw k). destruct k; simpl in *; congruence.
+    + (* WaitClock on a register-less clock: a fresh id enters the queue *)
+      destruct (inv2_fresh s s' Ic Ib) as (Ic' & Ib'); [|exact N|].
+      { intro i. unfold cnt. rewrite Q, A, B, W, qcnt_insert, qcnt_cons. simpl. lia. }
+      constructor; try assumption.
+      * intros e He Ty. rewrite Q in He. apply q_insert_in in He. destruct He as [->|He]; [|apply Iev; assumption].
+        split; [reflexivity | exact I].
       * intros k a Ha. apply (Iaw k). destruct k; simpl in *; congruence.
   - (* task *)
     pose proof (task_head_bk t (set_ready r s)) as B. rewrite Hth in B. cbn [snd] in B.
